@@ -6,6 +6,8 @@ From Coq Require Import List NArith ZArith String Bool Lia.
 From Gen Require Import Tables.
 From Model Require Import Base Names Flt F32 Matches Detect Cd Md Md32 Jaro Jaro32 Pipeline.
 From Proofs Require Import FloatLaws F32Facts F32Laws DetectInv DetectChaos MdFacts JaroFacts CdScoreFacts CoherenceRefined CoherenceCapstone.
+From Proofs Require Import DetectSound DetectWindow CodecFacts UtfFacts.
+From Model Require Import Utf Codecs.
 Import ListNotations.
 Open Scope N_scope.
 Open Scope list_scope.
@@ -54,3 +56,52 @@ Section PF.
     - exact pipeline_pop_big.
   Qed.
 End PF.
+
+(* The same for the pipeline that also decodes with the models (pipeline_dec): what is left as a hypothesis is
+   DecodeLen of the CJK oracle only; LazyContract is discharged outright. *)
+Section PD.
+  Variable B : base_oracles.
+
+  Lemma pipeline_dec_MessOK : MessOK F32ops (pipeline_dec B).
+  Proof. intros t thr. exact (pipeline_MessOK B t thr). Qed.
+
+  Theorem pipeline_dec_chaos b cfg r :
+    (forall e l t, b_sdecode B e l = Some t -> len t <= len l) ->
+    b <> [] -> len b < 2 ^ 64 -> fisnan F32ops (threshold F32ops cfg) = false ->
+    from_bytes F32ops (pipeline_dec B) b cfg = Ok r ->
+    exists inc exc, shape (chaos_ok F32ops (make_ctx F32ops (pipeline_dec B) b cfg inc exc))
+                          (chaos_fb F32ops (make_ctx F32ops (pipeline_dec B) b cfg inc exc)) r.
+  Proof.
+    intros HD. apply (chaos_shape F32ops (pipeline_dec B) F32_FloatLaws pipeline_dec_MessOK).
+    exact (pipeline_dec_decode_len B HD).
+  Qed.
+
+  Theorem pipeline_dec_coherence b cfg r :
+    b <> [] -> 1 <= steps F32ops cfg -> steps F32ops cfg < 2 ^ 22 -> from_bytes F32ops (pipeline_dec B) b cfg = Ok r ->
+    forall m, In m r -> good F32ops (coherence F32ops m) /\ fle F32ops (coherence F32ops m) (fone F32ops) = true.
+  Proof.
+    apply (coherence_in_unit_interval_modelled (pipeline_dec B) (pipeline_cd B)).
+    - intros; reflexivity.
+    - intros; reflexivity.
+    - exact (pipeline_pop_small B).
+    - exact (pipeline_pop_big B).
+  Qed.
+
+  (* every reported candidate decodes the input: no hypothesis left *)
+  Theorem pipeline_dec_decodes b cfg r :
+    b <> [] -> from_bytes F32ops (pipeline_dec B) b cfg = Ok r ->
+    forall m e, In m r -> In e (suitable_encodings F32ops m) ->
+      m_payload F32ops m = b /\ exists t, m_text F32ops m = Some t /\ sdecode F32ops (pipeline_dec B) e (strip b e) = Some t.
+  Proof. exact (from_bytes_decodes F32ops (pipeline_dec B) b cfg r (pipeline_dec_lazy_contract B)). Qed.
+
+  (* the chaos of an accepted candidate on a covered input is a function of its text and the threshold *)
+  Theorem pipeline_dec_chaos_function b cfg inc exc e m x :
+    (forall e l t, b_sdecode B e l = Some t -> len t <= len l) ->
+    len b <= chunk_size F32ops cfg * steps F32ops cfg -> len b <= TOO_BIG_SEQUENCE ->
+    probe F32ops (pipeline_dec B) (make_ctx F32ops (pipeline_dec B) b cfg inc exc) e = Ok (Accept F32ops m x) ->
+    exists t, m_text F32ops m = Some t /\ m_chaos F32ops m = chaos_fn F32ops (pipeline_dec B) t (threshold F32ops cfg)
+              /\ fge F32ops (chaos_fn F32ops (pipeline_dec B) t (threshold F32ops cfg)) (threshold F32ops cfg) = false.
+  Proof.
+    intros HD. exact (covered_probe_chaos F32ops (pipeline_dec B) F32_FloatLaws (pipeline_dec_decode_len B HD) b cfg inc exc e m x).
+  Qed.
+End PD.
